@@ -147,6 +147,9 @@ func drawConfig(c *kit.Chooser, crashy bool) Config {
 	if crashy || c.Chance("crash-on", 1, 2) {
 		cfg.Crash = 2 + c.Intn("crash", 12)
 		cfg.CrashAtK = 2 + c.Intn("crash-k", 15)
+		if c.Chance("crash-vote-write-on", 2, 3) {
+			cfg.CrashAtVoteWrite = 20 + c.Intn("crash-vote-write", 100)
+		}
 		cfg.MaxCrashes = 1 + c.Intn("max-crashes", 3)
 	}
 	return cfg
